@@ -26,6 +26,8 @@ type Env struct {
 	Msg types.MsgServer
 	B   *model.Bank
 	now time.Time
+
+	saved *model.Bank
 }
 
 // Authority is the module authority (x/gov module account).
@@ -68,3 +70,15 @@ func (e *Env) FailureInjected() bool { return e.B.Failed }
 func (e *Env) EventMark() int { return nd.EventMark() }
 
 func SameEvents(a *Env, a0, a1 int, b *Env, b0, b1 int) bool { return nd.SameEvents(a0, a1, b0, b1) }
+
+// Branch starts, and Discard throws away, a branched execution (what a simulated or failed transaction is):
+// store writes, bank balances and events are rolled back, the keeper value (process memory) is not.
+func (e *Env) Branch() {
+	e.saved = e.B.Clone()
+	nd.StoreBranch()
+}
+
+func (e *Env) Discard() {
+	nd.StoreDiscard()
+	e.B.RestoreFrom(e.saved)
+}
